@@ -345,6 +345,52 @@ def _rule_R27(text, args):
     return text, n
 
 
+def _rule_R28(text, args):
+    # E.into_iter().map(|A| BODY).collect()   ->
+    #   { let mut vsrc__ = E; let mut vdst__ = Vec::new(); while let Some(A) = vstub_pop_front(&mut vsrc__) /*@loophead*/ { vdst__.push(BODY); } vdst__ }
+    # (iterator adapters are outside Verus; consuming a Vec front to back and collecting the images is desugared into a
+    #  loop over a trusted take-the-first-element stub; BODY verbatim)
+    rx = re.compile(r"(?P<e>" + IDENT + r")\s*\.into_iter\(\)\s*\.map\(\s*\|\s*(?P<a>" + IDENT + r")\s*\|")
+    n = 0
+    while True:
+        m = rx.search(text)
+        if not m:
+            break
+        # BODY runs to the `)` closing `.map(`
+        i = m.end()
+        d, j = 1, i
+        while d:
+            ch = text[j]
+            if ch in "([{":
+                d += 1
+            elif ch in ")]}":
+                d -= 1
+            j += 1
+        body = text[i:j - 1].strip()
+        m2 = re.match(r"\s*\.collect\(\)", text[j:])
+        if not m2:
+            raise UnitError("R28: .map(..) not followed by .collect()")
+        rep = ("{ let mut vsrc__ = %s; let mut vdst__ = Vec::new(); while let Some(%s) = vstub_pop_front(&mut vsrc__) /*@loophead*/ { vdst__.push(%s); } vdst__ }"
+               % (m.group("e"), m.group("a"), body))
+        text = text[:m.start()] + rep + text[j + m2.end():]
+        n += 1
+    return text, n
+
+
+def _rule_R29(text, args):
+    # for r in E.iter_mut() {   ->   index loop `let r = &mut (E)[i]` (same shape as R4);      X.reverse();  ->  vstub_vec_reverse(X);
+    n = 0
+    name = args[0] if args else "vk__"
+    rx = re.compile(r"for\s+(?P<pat>" + IDENT + r")\s+in\s+(?P<e>" + IDENT + r")\.iter_mut\(\)\s*\{")
+    text, k = rx.subn(lambda m: "let mut %s: usize = 0; while %s < (%s).len() /*@loophead*/ { %s += 1; let %s = &mut (%s)[%s - 1];" % (
+        name, name, m.group("e"), name, m.group("pat"), m.group("e"), name), text)
+    n += k
+    rx2 = re.compile(r"(?<![A-Za-z0-9_.])(?P<x>" + IDENT + r")\.reverse\(\)\s*;")
+    text, k = rx2.subn(lambda m: "vstub_vec_reverse(%s);" % m.group("x"), text)
+    n += k
+    return text, n
+
+
 def _rule_R6(text, args):
     # path normalisation for the one-file unit: args are from=to pairs (e.g. super::OptionalSpace=OptionalSpace)
     n = 0
@@ -374,7 +420,7 @@ def _rule_R16(text, args):
     return rx.subn(lambda m: 'write!(%s, "{}%s", %s)' % (m.group(1), m.group(3), m.group(2)), text)
 
 
-RULES = {"R27": _rule_R27, "R26": _rule_R26, "R25": _rule_R25, "R24": _rule_R24, "R23": _rule_R23, "R21": _rule_R21, "R20": _rule_R20, "R19": _rule_R19, "R18": _rule_R18, "R17": _rule_R17, "R16": _rule_R16, "R15": _rule_R15, "R6": _rule_R6, "R14": _rule_R14, "R13": _rule_R13, "R1": _rule_R1, "R4": _rule_R4, "R4rev": _rule_R4rev, "R11": _rule_R11, "R8": _rule_R8, "R7": _rule_R7,
+RULES = {"R29": _rule_R29, "R28": _rule_R28, "R27": _rule_R27, "R26": _rule_R26, "R25": _rule_R25, "R24": _rule_R24, "R23": _rule_R23, "R21": _rule_R21, "R20": _rule_R20, "R19": _rule_R19, "R18": _rule_R18, "R17": _rule_R17, "R16": _rule_R16, "R15": _rule_R15, "R6": _rule_R6, "R14": _rule_R14, "R13": _rule_R13, "R1": _rule_R1, "R4": _rule_R4, "R4rev": _rule_R4rev, "R11": _rule_R11, "R8": _rule_R8, "R7": _rule_R7,
          "R9": _rule_R9, "R12": _rule_R12}
 
 
